@@ -1,6 +1,6 @@
 (* C12 — deciding obligations. Statements only, closed by the lemmas proved in Circ/*Proofs.v. *)
 From Coq Require Import ZArith List Bool String.
-From VF Require Import Circ.Keys Circ.KeysProofs Generated.CondTables.
+From VF Require Import Circ.Keys Circ.KeysProofs Circ.SubCircuit Circ.SubCircuitProofs Generated.CondTables.
 Import ListNotations.
 Open Scope Z_scope.
 
@@ -53,6 +53,89 @@ Theorem C12_condition_remap_refuted : forall kK,
 Proof. exact condition_remap_refuted_mask. Qed.
 Print Assumptions C12_condition_remap_refuted.
 
+(* D1: rescoping never captures a key bound later: a prefix of a circuit is rescoped independently of what follows,
+   and what follows sees the extern keys plus exactly the keys measured before it *)
+Theorem C12_rescope_never_captures_later : forall kK kM path c1 c2 b,
+  circ_rescope kK kM path b (c1 ++ c2) =
+  circ_rescope kK kM path b c1 ++ circ_rescope kK kM path (b ++ List.concat (map moment_mkeys (circ_rescope kK kM path b c1))) c2.
+Proof. exact rescope_app. Qed.
+Print Assumptions C12_rescope_never_captures_later.
+
+(* D2: the measurement keys / qubits a nested CircuitOperation reports are exactly those of its completely unrolled
+   circuit (the model of mapped_circuit(deep=True)), for every nesting depth, repetition count (positive or negative),
+   repetition ids, qubit/key/parameter maps and parent paths; kK kM range over both behaviours of replace_key *)
+Theorem C12_unroll_correct_keys : forall kK kM n c f ms,
+  mapped_circuit kK kM n true c f = Ok ms -> op_ok (OSub c f) = true ->
+  forall k, In k (keys_flat ms) <-> In k (op_mkeys (OSub c f)).
+Proof. exact unroll_keys. Qed.
+Print Assumptions C12_unroll_correct_keys.
+
+Theorem C12_unroll_correct_qubits : forall kK kM n c f ms,
+  mapped_circuit kK kM n true c f = Ok ms -> op_ok (OSub c f) = true ->
+  forall q, In q (qubits_flat ms) <-> In q (op_qubits (OSub c f)).
+Proof. exact unroll_qubits. Qed.
+Print Assumptions C12_unroll_correct_qubits.
+
+(* the domain restriction is necessary on today's code (F7): zero repetitions *)
+Theorem C12_unroll_keys_refuted_zero : forall kK kM,
+  mapped_circuit kK kM 2 true [[OLeaf (Leaf 10 false [0] [MK [] "a"] [] [])]] (SubF (RInt 0) None false [] [] [] [] [] None) = Ok []
+  /\ op_mkeys zero_rep_witness = [MK [] "a"] /\ op_is_meas zero_rep_witness = true.
+Proof. exact unroll_keys_refuted_zero. Qed.
+Print Assumptions C12_unroll_keys_refuted_zero.
+
+(* D4: constructor compositions *)
+Theorem C12_with_qubit_mapping_twice : forall g1 g2 o, t_qmap g2 (t_qmap g1 o) = t_qmap (fun q => g2 (g1 q)) o.
+Proof. exact qmap_twice. Qed.
+Print Assumptions C12_with_qubit_mapping_twice.
+
+Theorem C12_with_key_mapping_twice : forall kK kM m1 m2 o k,
+  In k (op_mkeys (t_kmap kK kM m2 (t_kmap kK kM m1 o))) <-> exists k0, In k0 (op_mkeys o) /\ k = key_map m2 (key_map m1 k0).
+Proof. exact kmap_twice. Qed.
+Print Assumptions C12_with_key_mapping_twice.
+
+Theorem C12_key_dict_twice : forall dom km m1 m2 s, In s dom ->
+  name_map (kmap_compose dom (kmap_compose dom km m1) m2) s = name_map m2 (name_map m1 (name_map km s)).
+Proof. exact kmap_dict_twice. Qed.
+Print Assumptions C12_key_dict_twice.
+
+Theorem C12_inverse_twice : forall o o1 o2, t_inv o = Ok o1 -> t_inv o1 = Ok o2 -> o2 = o.
+Proof. exact inv_twice. Qed.
+Print Assumptions C12_inverse_twice.
+
+Theorem C12_rescope_twice : forall kK kM p1 b1 p2 b2 o,
+  op_mkeys (t_rescope kK kM p1 b1 (t_rescope kK kM p2 b2 o)) = map (key_prefix (p1 ++ p2)) (op_mkeys o).
+Proof. exact rescope_twice. Qed.
+Print Assumptions C12_rescope_twice.
+
+Theorem C12_with_params_twice : forall dom m1 m2 s, In s dom ->
+  presolve (pmap_compose dom m1 m2) (PSym s) = presolve m2 (presolve m1 (PSym s)).
+Proof. exact plookup_compose. Qed.
+Print Assumptions C12_with_params_twice.
+
+(* remapping commutes with what the operation reports *)
+Theorem C12_keys_under_rescope : forall kK kM path b o,
+  op_mkeys (t_rescope kK kM path b o) = map (key_prefix path) (op_mkeys o).
+Proof. exact mkeys_rescope. Qed.
+Print Assumptions C12_keys_under_rescope.
+
+Theorem C12_qubits_under_qubit_map : forall g o, op_qubits (t_qmap g o) = map g (op_qubits o).
+Proof. exact qubits_qmap. Qed.
+Print Assumptions C12_qubits_under_qubit_map.
+
+(* D5: repeat_until = the least positive number of passes after which the condition holds (under fuel) *)
+Theorem C12_repeat_until_unroll : forall St body cond fuel (s t : St),
+  act_until St body cond fuel s = Ok t ->
+  exists k, (1 <= k <= fuel)%nat /\ t = Nat.iter k body s /\ cond t = true /\
+            forall j, (1 <= j < k)%nat -> cond (Nat.iter j body s) = false.
+Proof. exact repeat_until_unroll. Qed.
+Print Assumptions C12_repeat_until_unroll.
+
+Theorem C12_repeat_until_complete : forall St body cond k (s : St), (1 <= k)%nat -> cond (Nat.iter k body s) = true ->
+  (forall j, (1 <= j < k)%nat -> cond (Nat.iter j body s) = false) ->
+  forall fuel, (k <= fuel)%nat -> act_until St body cond fuel s = Ok (Nat.iter k body s).
+Proof. exact repeat_until_complete. Qed.
+Print Assumptions C12_repeat_until_complete.
+
 (* non-vacuity *)
 Example C12_rescope_example :
   rescope_key ["p"; "0"]%string [MK ["p"]%string "a"; MK [] "a"] (MK [] "a") = Some (MK ["p"]%string "a").
@@ -60,4 +143,18 @@ Proof. reflexivity. Qed.
 Example C12_compose_example :
   key_map (kmap_compose ["a"; "b"]%string [("a", "b"); ("b", "a")]%string [("a", "c"); ("b", "a")]%string) (MK [] "a")
   = MK [] "a".
+Proof. reflexivity. Qed.
+
+(* the hypotheses of unroll_correct are satisfiable by a two-level nest with repetition ids, maps and a parent path *)
+Definition C12_example_op : op :=
+  OSub [[OSub [[OLeaf (Leaf 10 false [0] [MK [] "a"] [] [])]; [OLeaf (Leaf 1 false [0] [] [CKey (MK [] "a") (-1)] [])]]
+              (SubF (RInt 2) (Some ["0"; "1"]%string) true [(0, 1)] [("a", "b")]%string [] [] [] None)]]
+       (SubF (RInt 2) (Some ["x"; "y"]%string) true [(1, 2)] [("b", "c")]%string [] ["p"]%string [] None).
+Example C12_unroll_example :
+  op_ok C12_example_op = true /\
+  exists ms, match C12_example_op with OSub c f => mapped_circuit false false 4 true c f | _ => ErrValue end = Ok ms /\
+             keyset_eqb (keys_flat ms) [MK ["p"; "x"; "0"]%string "c"; MK ["p"; "x"; "1"]%string "c"; MK ["p"; "y"; "0"]%string "c"; MK ["p"; "y"; "1"]%string "c"] = true /\
+             qubits_flat ms = [2].
+Proof. split; [reflexivity|]. eexists. split; [vm_compute; reflexivity|]. split; reflexivity. Qed.
+Example C12_until_example : act_until nat S (fun n => Nat.eqb n 3) 5 0%nat = Ok 3%nat.
 Proof. reflexivity. Qed.
